@@ -3,6 +3,7 @@
 -/
 import Msmart.Driver.Util
 import Msmart.Model.Response
+import Msmart.Spec.FrameSpec
 
 namespace Msmart.Driver
 open Msmart Msmart.Model
@@ -74,6 +75,10 @@ def acOp (op : String) (t : List String) : Option String :=
     | some c =>
       let r := c.toBytes (kvNat t "counter")
       some (rStr toHex r.1 ++ " counter=" ++ toString r.2)
+  | "spec_parse_frame" =>
+    match Spec.parseFrame (kvHex t "frame") with
+    | none => some "none"
+    | some p => some s!"ok dev={p.deviceType.toNat} ft={p.frameType.toNat} body={toHex p.body} id={p.msgId.toNat}"
   | "parse_temp" => some (optStr toString (parseTemp (kvNat t "data") (kvNat t "d") (kvBool t "f")))
   | _ => none
 
